@@ -132,6 +132,30 @@ func c07cBody(env *simrt.Env) { publisherBody(env, true) }
 
 func publisherBody(env *simrt.Env, flushOracle bool) {
 	p := genChanParams()
+	dp := &DataPublisher{}
+	// One DataPublisher serves every writing session of its channel: a history has one or more file
+	// lives (Set*, records, flushes, pauses, Remove*), each with new file names and a freshly drawn
+	// subset of formats. Every oracle is applied per file life.
+	nlives := 1 + simrt.Draw(3)
+	seq := 0
+	total := 0
+	var flushCounts []int // record counts at which earlier file lives were flushed
+	var lastSample map[string]interface{}
+	for life := 0; life < nlives; life++ {
+		n, sample := publisherLife(env, flushOracle, dp, p, life, &seq, &flushCounts)
+		total += n
+		lastSample = sample
+	}
+	if nlives > 1 {
+		simrt.Hit("several-file-lives")
+	}
+	lastSample["file_lives"] = nlives
+	lastSample["records_in_files"] = total
+	env.Sample(lastSample)
+}
+
+// publisherLife is one file life on the publisher dp; it returns the number of records its files must hold.
+func publisherLife(env *simrt.Env, flushOracle bool, dp *DataPublisher, p chanParams, life int, seqp *int, flushCounts *[]int) (int, map[string]interface{}) {
 	useLJH22, useLJH3, useOFF := false, false, false
 	switch simrt.Draw(5) {
 	case 0:
@@ -145,10 +169,13 @@ func publisherBody(env *simrt.Env, flushOracle bool) {
 	default:
 		useLJH22, useLJH3, useOFF = true, true, true
 	}
-	dp := &DataPublisher{}
-	f22 := filepath.Join(env.Dir, "x_"+p.name+".ljh")
-	f3 := filepath.Join(env.Dir, "x_"+p.name+".ljh3")
-	foff := filepath.Join(env.Dir, "x_"+p.name+".off")
+	prefix := "x_"
+	if life > 0 {
+		prefix = fmt.Sprintf("x%d_", life)
+	}
+	f22 := filepath.Join(env.Dir, prefix+p.name+".ljh")
+	f3 := filepath.Join(env.Dir, prefix+p.name+".ljh3")
+	foff := filepath.Join(env.Dir, prefix+p.name+".off")
 	start := time.Date(2024, 2, 3, 4, 5, 6, 0, time.UTC)
 	if useLJH22 {
 		dp.SetLJH22(p.index, p.npre, p.nsamp, 1, p.timebase, start, p.rows, p.cols, p.nchans, p.subdiv, p.row, p.col, p.suboff,
@@ -161,7 +188,7 @@ func publisherBody(env *simrt.Env, flushOracle bool) {
 		dp.SetOFF(p.index, p.npre, p.nsamp, 1, p.timebase, start, p.rows, p.cols, p.nchans, p.subdiv, p.row, p.col, p.suboff,
 			foff, "Scripted", p.name, p.number, p.proj, p.basis, "model", Pixel{X: 3, Y: 4, Name: "px"})
 	}
-	env.Op("publisher ljh22=%v ljh3=%v off=%v nsamp=%d npre=%d nbases=%d subdiv=%d suboff=%d", useLJH22, useLJH3, useOFF, p.nsamp, p.npre, p.nbases, p.subdiv, p.suboff)
+	env.Op("file life %d: publisher ljh22=%v ljh3=%v off=%v nsamp=%d npre=%d nbases=%d subdiv=%d suboff=%d", life, useLJH22, useLJH3, useOFF, p.nsamp, p.npre, p.nbases, p.subdiv, p.suboff)
 
 	var want []wantRec // records accepted while unpaused
 	// LJH2.2 has fixed-size records: a record of another length (the variable-length edge-multi mode
@@ -170,6 +197,14 @@ func publisherBody(env *simrt.Env, flushOracle bool) {
 	oddLengths := simrt.Draw(3) == 0
 	// flushed checks C07's completeness clause through the publisher (only in the C07c check)
 	flushed := func(what string) {
+		if life > 0 {
+			for _, c := range *flushCounts {
+				if c == len(want) && c > 0 {
+					simrt.Hit("flush-at-a-record-count-an-earlier-file-was-flushed-at")
+					break
+				}
+			}
+		}
 		if !flushOracle {
 			return
 		}
@@ -208,15 +243,21 @@ func publisherBody(env *simrt.Env, flushOracle bool) {
 			simrt.Hit("flush-with-several-outputs")
 		}
 	}
+	noteFlush := func() { *flushCounts = append(*flushCounts, len(want)) }
 	paused := false
-	seq := 0
 	nops := 3 + simrt.Draw(25)
+	if life > 0 || simrt.Draw(4) == 0 {
+		nops = 2 + simrt.Draw(6) // short lives: several of them fit in one history
+	}
 	published := 0
 	pending := 0
 	for i := 0; i < nops; i++ {
 		switch k := simrt.Draw(10); {
 		case k < 5:
 			n := 1 + simrt.Draw(20)
+			if simrt.Draw(2) == 0 {
+				n = 1 + n%3 // small batches: a slowly triggering channel
+			}
 			// this world stays below the writers' queue capacity whatever the schedule
 			// (overflow is C07's subject): flush before the queue could fill
 			if pending+8*n+4 > 900 {
@@ -224,6 +265,7 @@ func publisherBody(env *simrt.Env, flushOracle bool) {
 				pending = 0
 				env.Op("flush (keeps the queue below capacity)")
 				flushed("Flush")
+				noteFlush()
 			}
 			if !paused {
 				pending += 8*n + 4
@@ -239,8 +281,8 @@ func publisherBody(env *simrt.Env, flushOracle bool) {
 						np = ns - 1
 					}
 				}
-				r, w := genRecord(ns, np, p.nbases, seq)
-				seq++
+				r, w := genRecord(ns, np, p.nbases, *seqp)
+				*seqp++
 				batch = append(batch, r)
 				if !paused {
 					want = append(want, w)
@@ -259,6 +301,7 @@ func publisherBody(env *simrt.Env, flushOracle bool) {
 			pending = 0
 			env.Op("flush")
 			flushed("Flush")
+			noteFlush()
 			if published == 0 {
 				simrt.Hit("flush-before-first-record")
 			}
@@ -267,6 +310,7 @@ func publisherBody(env *simrt.Env, flushOracle bool) {
 			paused = true
 			env.Op("pause")
 			flushed("SetPause(true)")
+			noteFlush()
 		case k < 8:
 			dp.SetPause(false)
 			paused = false
@@ -306,7 +350,7 @@ func publisherBody(env *simrt.Env, flushOracle bool) {
 	if useOFF {
 		checkOFFFile(foff, p, want)
 	}
-	env.Sample(map[string]interface{}{"formats": fmt.Sprintf("ljh22=%v ljh3=%v off=%v", useLJH22, useLJH3, useOFF), "nsamp": p.nsamp, "npre": p.npre, "nbases": p.nbases, "ops": nops, "records_in_files": len(want)})
+	return len(want), map[string]interface{}{"formats": fmt.Sprintf("ljh22=%v ljh3=%v off=%v", useLJH22, useLJH3, useOFF), "nsamp": p.nsamp, "npre": p.npre, "nbases": p.nbases, "ops": nops}
 }
 
 func readOrAbsent(path string, want int, what string) ([]byte, bool) {
